@@ -608,24 +608,23 @@ func (o *FilterOptimizer) unionPrefix(l, r *ScanType) *ScanType {
 	return &ScanType{FULL, nil}
 }
 
+// inRange reports whether val lies in [start, end]. A nil start or end means the
+// range is unbounded on that side; a nil val stands for the unbounded start
+// (isEnd == false) or the unbounded end (isEnd == true) of another range.
 func inRange(start, end, val []byte, isEnd bool) bool {
-	if start == nil && end != nil {
-		if val == nil && !isEnd {
-			return true
-		} else if val == nil && isEnd {
-			return false
+	if val == nil {
+		if isEnd {
+			return end == nil
 		}
-		return bytes.Compare(end, val) >= 0
+		return start == nil
 	}
-	if start != nil && end == nil {
-		if val == nil && !isEnd {
-			return false
-		} else if val == nil && isEnd {
-			return true
-		}
-		return bytes.Compare(start, val) <= 0
+	if start != nil && bytes.Compare(start, val) > 0 {
+		return false
 	}
-	return bytes.Compare(start, val) <= 0 && bytes.Compare(end, val) >= 0
+	if end != nil && bytes.Compare(end, val) < 0 {
+		return false
+	}
+	return true
 }
 
 func (o *FilterOptimizer) intersectionRange(l, r *ScanType) *ScanType {
@@ -707,47 +706,22 @@ func (o *FilterOptimizer) unionRange(l, r *ScanType) *ScanType {
 		rstart, rend = rend, rstart
 	}
 
-	// Same range just return left
-	if bytes.Compare(lstart, rstart) == 0 && bytes.Compare(lend, rend) == 0 {
-		return l
-	}
-
+	// The union is covered by the smallest range that contains both:
+	// from the lower start to the higher end, a nil boundary is unbounded
 	var (
 		nstart []byte = nil
 		nend   []byte = nil
 	)
-
-	// | ^LS,RS | LE,RE$ |
-	// just use full scan instead
-	if lstart == nil && rstart == nil && lend == nil && rend == nil {
-		return &ScanType{FULL, nil}
-	}
-
-	if inRange(lstart, lend, rstart, false) && !inRange(lstart, lend, rend, true) {
-		// | LS | RS | LE | RE |
+	if lstart != nil && rstart != nil {
 		nstart = lstart
-		nend = rend
-	} else if inRange(rstart, rend, lstart, false) && !inRange(rstart, rend, lend, true) {
-		// | RS | LS | RE | LE |
-		nstart = rstart
-		nend = lend
-	} else if inRange(lstart, lend, rstart, false) && inRange(lstart, lend, rend, true) {
-		// | LS | RS | RE | LE |
-		nstart = lstart
-		nend = lend
-	} else if inRange(rstart, rend, lstart, false) && inRange(rstart, rend, lend, true) {
-		// | RS | LS | LE | RE |
-		nstart = rstart
-		nend = rend
-	} else if !inRange(lstart, lend, rstart, false) && !inRange(lstart, lend, rend, true) {
-		if inRange(lstart, rstart, lend, true) {
-			// | LS | LE | RS | RE |
-			nstart = lstart
-			nend = rend
-		} else if inRange(rstart, lstart, rend, true) {
-			// | RS | RE | LS | LE |
+		if bytes.Compare(rstart, lstart) < 0 {
 			nstart = rstart
-			nend = lend
+		}
+	}
+	if lend != nil && rend != nil {
+		nend = lend
+		if bytes.Compare(rend, lend) > 0 {
+			nend = rend
 		}
 	}
 
@@ -756,7 +730,7 @@ func (o *FilterOptimizer) unionRange(l, r *ScanType) *ScanType {
 	}
 
 	// start == end just use MGET scan
-	if bytes.Compare(nstart, nend) == 0 {
+	if nstart != nil && nend != nil && bytes.Compare(nstart, nend) == 0 {
 		return &ScanType{MGET, [][]byte{nstart}}
 	}
 	return &ScanType{RANGE, [][]byte{nstart, nend}}
@@ -800,7 +774,7 @@ func (o *FilterOptimizer) intersectionPrefixAndRange(prefix, srange *ScanType) *
 
 	if inRange(rstart, rend, pstart, false) {
 		// | RS | PS | RE | ...
-		if bytes.HasPrefix(rend, pstart) {
+		if rend != nil && bytes.HasPrefix(rend, pstart) {
 			// | RS | PS | RE | PE |
 			if bytes.Equal(pstart, rend) {
 				return &ScanType{MGET, [][]byte{pstart}}
